@@ -177,9 +177,10 @@ def one_case(args):
             st = a.stats
             st["rdh_stats"]["rdhs_seen"] += 1
             sp = put("old.json", json.dumps(st))
-            r = run([p] + margs + ["-i", sp, "-E", str(N)])
+            mute = ["-m"] if rng.random() < 0.5 else []
+            r = run([p] + margs + ["-i", sp, "-E", str(N)] + mute)
             if r.abnormal(allowed_rc=(N,)):
-                return bad("statistics mismatch: %s" % r.abnormal(allowed_rc=(N,)), r)
+                return bad("statistics mismatch%s: %s" % (" (muted)" if mute else "", r.abnormal(allowed_rc=(N,))), r)
         elif kind == "badinput":
             sub = rng.choice(["missing", "empty", "short", "random", "version", "text"])
             if sub == "missing":
@@ -217,6 +218,17 @@ def one_case(args):
                 "-S without -D": [p] + margs + ["-S", sp],
                 "two filters": [p] + margs + ["-f", "1", "-F", "2"],
             }
+            if rng.random() < 0.25:
+                # a statistics file whose extension differs only in case: either rejected up-front like any other extension, or accepted and processed normally
+                a0 = run([p] + margs, stats="json")
+                up = put(rng.choice(["old.JSON", "old.Json"]), a0.stats_raw or b"{}")
+                r = run([p] + margs + ["-i", up, "-S", sp, "-D", "json"])
+                if r.sig is not None or r.panicked() or r.rc not in (0, 1):
+                    return bad("upper-case statistics extension: %s" % r.abnormal(), r)
+                if r.rc != 0 and (r.stdout.strip() or os.path.exists(sp)):
+                    return bad("upper-case statistics extension: rejected (exit %s) after output was written" % r.rc, r)
+                out["key"] = (kind, "extension case")
+                return out
             name = rng.choice(list(combos))
             r = run(combos[name])
             if r.sig is not None or r.panicked() or r.timeout:
